@@ -548,9 +548,10 @@ Qed.
 Theorem half_close_completes T0 : forall evs fa st st',
   J T0 fa st -> Forall cl_ev evs -> fair_run Dt Da fa st evs -> once_run Dt Da fa st evs ->
   net_run st evs = Ok st' -> T0 + 2 * Dt < net_now st' c ->
-  exists pre post fa1 st1,
+  exists pre post st1,
     evs = pre ++ post /\ net_run st pre = Ok st1 /\ net_run st1 post = Ok st' /\
-    Forall cl_ev post /\ fair_run Dt Da fa1 st1 post /\ once_run Dt Da fa1 st1 post /\ Q T0 fa1 st1.
+    Forall cl_ev post /\ fair_run Dt Da (fa_run Dt Da fa st pre) st1 post /\
+    once_run Dt Da (fa_run Dt Da fa st pre) st1 post /\ Q T0 (fa_run Dt Da fa st pre) st1.
 Proof.
   apply (rel_leads_ev Dt Da cl_ev (J T0) (Q T0) c (T0 + 2 * Dt)).
   - intros fa st HJ. exact (J_clock T0 fa st HJ).
